@@ -1566,4 +1566,63 @@ def wFlattenLogged : List Inter :=
   [{ actions := some [.tuple [.num 1, .tuple [.num 2]], .tuple [.num 3, .tuple [.num 4]]],
      action := some (.tuple [.num 3, .tuple [.num 4]]), reward := some (1/2), probability := some (1/4) }]
 
+/-! ## Phase 4: explicit decidable preconditions on the *input* (nothing about the filter's output) -/
+
+def isNum : Val → Bool
+  | .num _ => true
+  | _ => false
+
+/-- a noiser that cannot merge two numbers: no action noise at all, or `x ↦ mul·x + add` with `mul ≠ 0` -/
+def injNoiser : Option NoiseSpec → Bool
+  | none => true
+  | some (.affine m _) => m != 0
+  | some .drawn => false
+
+/-- preconditions of `noise_scalar_aligned`, all about the stream handed to `Noise`: the reward / feedback functions answer
+for their own actions, functional feedbacks are functional from the first interaction on, every action is a number and the
+action lists are sets, an interaction without actions carries no rewards -/
+def noiseScalarHypB (s : List Inter) : Bool :=
+  alignedStreamB s s
+  && s.all fun I =>
+      (match I.feedbacks with | some r => !r.isCallable || firstCallable (·.feedbacks) s | none => true)
+      && (match I.actions with | some as => as.all isNum && distinctB as | none => I.rewards.isNone)
+
+/-- Cycle really moves rewards: which reward the j-th action earns afterwards (`cycle_shift`) -/
+def cycleSource (n j : Nat) : Nat := (j + n - 1) % n
+
+/-- Python's `==` is not transitive once a SparseDense row is involved: `[1] == SparseDense({0:1},1) == (1,)` but `[1] != (1,)` -/
+def wEqNotTrans : Val × Val × Val := (.list [.num 1], .lazy [(0, .num 1)] 1, .tuple [.num 1])
+
+/-- the constants of the anchored source that the model hard-wires (compared with `Generated/C10Consts.lean`,
+which the harness regenerates from the source under test on every run) -/
+def modeName : Mode → String
+  | .onehot => "onehot"
+  | .onehotTuple => "onehot_tuple"
+  | .string => "string"
+
+def optModeName : Option Mode → String
+  | some m => modeName m
+  | none => "None"
+
+/-- `Finalize` = `Harden()`, `Repr(<ctx mode>, <action mode>)`: the two mode names the model uses -/
+def finalizeReprModes : List String :=
+  match expandStep .finalize with
+  | [.harden, .repr cc ca, .wrapSeqs] => [optModeName cc, optModeName ca]
+  | _ => []
+
+/-- the default headers `Sparsify` passes to `_make_sparse` for context, actions, logged action -/
+def sparsifyHeaders : List String := ["context", "action", "action"]
+
+/-- the seed of the generator behind Densify's look-up slots -/
+def densifySeed : Nat := 1
+
+/-- Cycle's rotation `l[a % n:] + l[:a % n]` with `a = -1`: the model's `rotList` drops `n - cycleShift` -/
+def cycleShift : Nat := 1
+
+/-- `if i >= self._after` in Cycle: does interaction number `t` get rotated (the model's `cyclePlans` tests `t < after` for "keep") -/
+def cycleRotatesAt (after t : Nat) : Bool := !(decide (t < after))
+
+/-- the witnesses of the Phase-4 `_counterexample`s -/
+def wCycle : List Inter := [{ actions := some [.str "a", .str "b", .str "c"], rewards := some (.seq true [1, 2, 3]) }]
+
 end Coba.C10
